@@ -6,7 +6,7 @@ import vbuild
 
 VERIF = vbuild.VERIF
 REPO = vbuild.REPO
-LEAN = os.path.join(VERIF, "lean")
+LEAN = os.environ.get("VERIF_LEAN", os.path.join(VERIF, "lean"))
 WORK = vbuild.WORK
 ALLOWED_AXIOMS = {"propext", "Classical.choice", "Quot.sound"}
 FORBIDDEN = re.compile(r"\bsorry\b|\badmit\b|^\s*axiom\s|\bnative_decide\b|\bbv_decide\b|implemented_by|\bunsafe\s|maxHeartbeats\s+0\b", re.M)
@@ -102,8 +102,9 @@ class Ctx:
         ev["coverage"].update(self.notes)
         if not ev["coverage"]["samples"]:
             ev["coverage"]["samples"] = ["(no case was executed)"]
-        os.makedirs(os.path.join(VERIF, "evidence"), exist_ok=True)
-        with open(os.path.join(VERIF, "evidence", self.pid + ".json"), "w") as f:
+        evdir = os.environ.get("VERIF_EVIDENCE", os.path.join(VERIF, "evidence"))
+        os.makedirs(evdir, exist_ok=True)
+        with open(os.path.join(evdir, self.pid + ".json"), "w") as f:
             json.dump(ev, f, indent=1, default=str)
         for what, p, no_input in self.violations:
             print("# %s" % what)
